@@ -344,7 +344,8 @@ func runC21(c *Ctx) []Obligation {
 			Barrier: []string{`^` + kN + `SetUnstakingValidator\(k, ctx, validator\)$`}, Target: TargetAnyReturn(),
 			Why: "storing an unstaking node (re)inserts it in the unstaking queue"},
 		{Prop: P, ID: "set.staked-unjailed-indexed", Fn: "(x/nodes/keeper.Keeper).SetValidator",
-			Assume:  []Lit{T(`^\(x/nodes/types\.Validator\)\.IsStaked\(validator\)$`), F(`^\(x/nodes/types\.Validator\)\.IsJailed\(validator\)$`)},
+			// IsStaked and IsUnstaking test one status field for different values: a staked node is not unstaking
+			Assume:  []Lit{T(`^\(x/nodes/types\.Validator\)\.IsStaked\(validator\)$`), F(`^\(x/nodes/types\.Validator\)\.IsUnstaking\(validator\)$`), F(`^\(x/nodes/types\.Validator\)\.IsJailed\(validator\)$`)},
 			Barrier: []string{`^` + kN + `SetStakedValidator\(k, ctx, validator\)$`}, Target: TargetAnyReturn(),
 			Why: "storing a staked, unjailed node inserts it in the power index"},
 		{Prop: P, ID: "set.jailed-not-indexed", Fn: "(x/nodes/keeper.Keeper).SetValidator",
